@@ -731,6 +731,29 @@ pub fn gen(seed: u64, tier: &str) -> Vec<String> {
         let c = gen_content(&mut rng, max_cells, true);
         lines.push(format!("c01.s{:06} ser {} {}", i, end_tag(c.big), c.fields(true)));
     }
+    // outside the domain: one string the codec cannot encode (model tie for the error path; oracle skips)
+    for i in 0..(if thorough { 600 } else { 60 }) {
+        let mut c = gen_content(&mut rng, 10, true);
+        let bad = format!("{}{}", rng.pick(&["a", "", "ｱ"]), rng.pick(&["é", "€", "😀", "ab\u{3b1}\u{7e6}"]));
+        assert!(SHIFT_JIS.encode(&bad).2);
+        match rng.below(3) {
+            0 if !c.strings.is_empty() => {
+                let k = rng.below(c.strings.len() as u64) as usize;
+                c.strings[k].1 = bad
+            }
+            1 if c.labels.iter().any(|l| !l.1.is_empty()) => {
+                let idx: Vec<usize> = (0..c.labels.len()).filter(|i| !c.labels[*i].1.is_empty()).collect();
+                let k = *rng.pick(&idx);
+                c.labels[k].1[0] = bad
+            }
+            _ if !c.cstrings.is_empty() && !c.cstrings.iter().any(|p| p.0 == bad) => {
+                let k = rng.below(c.cstrings.len() as u64) as usize;
+                c.cstrings[k].0 = bad
+            }
+            _ => continue,
+        }
+        lines.push(format!("c01.e{:06} ser {} {}", i, end_tag(c.big), c.fields(true)));
+    }
     for i in 0..(if thorough { 300 } else { 30 }) {
         let c = gen_content(&mut rng, 12, true);
         lines.push(format!("c02.p{:06} serp {} {}", i, end_tag(c.big), c.fields(true)));
